@@ -91,17 +91,6 @@ func verifC14Init(scope *ReferenceScope) *verifC14State {
 	return st
 }
 
-// churn takes objects out of every value pool and overwrites them: a value that was wrongly
-// discarded while still referenced is reissued here and changes under its owner's feet.
-func verifC14Churn() {
-	for k := 0; k < 6; k++ {
-		_ = value.NewInteger(int64(-7777 - k))
-		_ = value.NewFloat(-7777.5)
-		_ = value.NewString("~churn~")
-		_ = value.NewDatetime(time.Unix(0, 0))
-	}
-}
-
 func (st *verifC14State) unchanged(tag string) {
 	get := func(n string) value.Primary {
 		v, err := st.scope.GetVariable(parser.Variable{Name: n})
